@@ -45,8 +45,13 @@ class Report:
         """verdict in ok | violation | reviewed | note"""
         assert verdict in ("ok", "violation", "reviewed", "note"), verdict
         key = re.sub(r"\s+", "_", key)
+        rule = self._rn(rule)
         self.instances.append(dict(rule=rule, key=key, verdict=verdict, where=where, detail=detail,
                                    trivial=trivial, cls=cls or verdict))
+
+    def _rn(self, rule):
+        """rules shared between properties are reported under the property being checked"""
+        return rule if rule.startswith(self.prop) else "%s/%s" % (self.prop, rule)
 
     def ok(self, rule, key, where="", detail="", trivial=False, cls=None):
         self.inst(rule, key, "ok", where, detail, trivial, cls)
@@ -66,7 +71,7 @@ class Report:
 
     def floor(self, rule, minimum, why=""):
         """fail closed: `rule` must have matched at least `minimum` instances (counted by hand on the pinned tree)"""
-        self.floors[rule] = (minimum, why)
+        self.floors[self._rn(rule)] = (minimum, why)
 
     def note(self, text):
         self.notes.append(text)
